@@ -141,6 +141,13 @@ def gen(rng, tier):
             t = nested(rng, n, rng.choice([b"[]", b"{}", b"[1]"])) if n > 0 else rng.choice([b"[]", b"{}", b"[1, 2]"])
             meta = {"kind": "fd-depth", "D": 32, "text": t, "chunks": None, "flags": 0, "fd": dreq}
             out.append((line(32, 0, ["D%d,%s" % (dreq, hx(t))]), meta))
+    # the default limit (32) of the one-call entry points json_tokener_parse_verbose / json_tokener_parse and of
+    # json_tokener_new(): exact as well
+    for n in (0, 1, 30, 31, 32, 33, 34, 40):
+        for leaf in (b"1", b"[]", b"{}"):
+            t = nested(rng, n, leaf)
+            meta = {"kind": "default-entry", "D": 32, "text": t, "chunks": None, "flags": 0, "entry": "V"}
+            out.append((line(32, 0, ["V" + hx(t), "W" + hx(t)]), meta))
     # hostile: only openers, very long
     for D in (1, 2, 32):
         for opener in (b"[", b'{"a":'):
@@ -166,6 +173,18 @@ def oracle(line_, meta, impl):
             return ("fd-accepts-beyond-limit", "from_fd_ex(depth=%d) accepted a document nested beyond the limit: %r" % (dreq, t[:60]))
         if not deep and got == "-":
             return ("fd-rejects-within-limit", "from_fd_ex(depth=%d) rejected a document within the limit: %r" % (dreq, t[:60]))
+        return None
+    if meta.get("entry") == "V":
+        parts = impl.split(" | ")
+        if len(parts) != 2 or not parts[1].startswith("parse "):
+            return ("malformed", impl[:100])
+        deep = first_too_deep(t, 32) is not None
+        verr = parts[0].split(" ")[0]
+        wval = parts[1].split(" ", 1)[1]
+        if deep and (verr != "depth" or wval != "-"):
+            return ("default-entry-accepts-beyond-limit", "json_tokener_parse(_verbose) did not reject a document nested beyond the default limit 32 with the depth error: %s / %s" % (parts[0][:40], parts[1][:40]))
+        if not deep and (verr != "success" or wval == "-"):
+            return ("default-entry-rejects-within-limit", "json_tokener_parse(_verbose) rejected a document within the default limit: %s / %s" % (parts[0][:40], parts[1][:40]))
         return None
     if D < 1:
         return None if impl == "NEWFAIL" else ("new-accepts-lt1", "tokener created with depth %d" % D)
